@@ -456,14 +456,18 @@ impl Scenario for SincScenario {
         }
     }
     fn run(&self, src: &mut Source, obs: &mut Observer) -> Result<(), Violation> {
-        let fmt = src.cfg("frame", 0, 4, |r| r.range(0, 4));
+        let fmt = src.cfg("frame", 0, 8, |r| r.range(0, 8));
         obs.note(fmt as u64);
         match fmt {
             0 => drive::<f64>(src, obs),
             1 => drive::<f32>(src, obs),
             2 => drive::<[f64; 2]>(src, obs),
             3 => drive::<i16>(src, obs),
-            _ => drive::<[i32; 2]>(src, obs),
+            4 => drive::<[i32; 2]>(src, obs),
+            5 => drive::<[dasp_sample::types::U24; 2]>(src, obs),
+            6 => drive::<u32>(src, obs),
+            7 => drive::<dasp_sample::types::I48>(src, obs),
+            _ => drive::<[u8; 3]>(src, obs),
         }
     }
 }
